@@ -82,6 +82,32 @@ class _Lambda:
         return sub.fold(self.node.body)
 
 
+class _LocalFn:
+    """a function defined inside the evaluated function: called by evaluating its body (closure over the defining environment)"""
+
+    def __init__(self, node: ast.FunctionDef, env: Dict[str, Any]):
+        self.node = node
+        self.env = env  # shared with the enclosing evaluation (late binding, as in Python)
+
+    def call(self, f: "Folder", args: list) -> Any:
+        from .absint import Evaluator, body_without_docstring_
+
+        a = self.node.args
+        params = [x.arg for x in a.posonlyargs + a.args]
+        defaults = dict(zip(reversed(params), reversed(a.defaults)))
+        if len(args) > len(params):
+            raise Unfoldable("arity of %s" % self.node.name)
+        env = dict(self.env)
+        env.update(zip(params, args))
+        for p_ in params[len(args):]:
+            if p_ not in defaults:
+                raise Unfoldable("arity of %s" % self.node.name)
+            env[p_] = Folder(dict(self.env), f.repo, f.mod, f.cls, f.hook).fold(defaults[p_])
+        ev = Evaluator(env, f.repo, f.mod, f.cls, f.hook)
+        ev.depth = f.depth + 1
+        return ev.run(body_without_docstring_(self.node))
+
+
 class Folder:
     def __init__(
         self,
@@ -386,6 +412,13 @@ class Folder:
 
     def _call(self, e: ast.Call) -> Any:
         name = dotted(e.func)
+        if name is not None and self.repo is not None and self.mod is not None and name.split(".")[0] not in self.env and isinstance(e.func, (ast.Name, ast.Attribute)):
+            try:
+                r0 = self.repo.resolve_expr(self.mod, e.func, self.cls)
+            except Exception:
+                r0 = None
+            if isinstance(r0, External) and r0.dotted.split(".")[0] in ("itertools", "functools", "math", "collections", "fractions", "typing", "struct", "operator"):
+                name = r0.dotted  # `from itertools import product` -> itertools.product
         args = e.args
         if any(isinstance(a, ast.Starred) for a in args):
             return self._call_starred(e)
@@ -421,7 +454,7 @@ class Folder:
                         return getattr(recv, m)(*[self.fold(a) for a in args])
                     except (UnicodeError, LookupError) as ex:
                         raise Unfoldable("%s: %s" % (unparse(e), ex))
-        if e.keywords and name not in ("int",):
+        if e.keywords and name not in ("int", "itertools.product", "sorted", "max", "min") and not (isinstance(e.func, ast.Name) and isinstance(self.env.get(e.func.id), Abstract)):
             raise Unfoldable(unparse(e))
         if isinstance(e.func, ast.Attribute) and e.func.attr == "bit_length" and not args:
             v = self.fold(e.func.value)
@@ -433,11 +466,25 @@ class Folder:
             if isinstance(v, str):
                 return getattr(v, e.func.attr)()
             raise Unfoldable(unparse(e))
-        if name in ("min", "max"):
+        if name in ("min", "max", "sorted"):
             vals = [self.fold(a) for a in args]
-            if len(vals) == 1 and isinstance(vals[0], (list, tuple, frozenset)):
+            if len(vals) == 1 and isinstance(vals[0], (list, tuple, frozenset, set)):
                 vals = list(vals[0])
-            return (min if name == "min" else max)(vals)
+            kw = {k.arg: self.fold(k.value) for k in e.keywords if k.arg}
+            keyf = kw.pop("key", None)
+            pyk = {}
+            if keyf is not None:
+                if isinstance(keyf, (_Lambda, _LocalFn)):
+                    pyk["key"] = lambda x, _k=keyf: _k.call(self, [x])
+                else:
+                    raise Unfoldable(unparse(e))
+            if "reverse" in kw:
+                pyk["reverse"] = bool(kw.pop("reverse"))
+            if "default" in kw and name != "sorted":
+                pyk["default"] = kw.pop("default")
+            if kw:
+                raise Unfoldable(unparse(e))
+            return {"min": min, "max": max, "sorted": sorted}[name](vals, **pyk)
         if name == "abs":
             return abs(self.fold(args[0]))
         if name == "len":
@@ -502,9 +549,9 @@ class Folder:
         if name in ("fractions.Fraction", "Fraction", "frac"):
             vals = [self.fold(a) for a in args]
             return Fraction(*vals)
-        if name in ("set", "frozenset", "tuple", "list", "sorted"):
+        if name in ("set", "frozenset", "tuple", "list"):
             v = self.fold(args[0]) if args else ()
-            return {"set": frozenset, "frozenset": frozenset, "tuple": tuple, "list": list, "sorted": sorted}[name](v)
+            return {"set": frozenset, "frozenset": frozenset, "tuple": tuple, "list": list}[name](v)
         if name == "str":
             return str(self.fold(args[0]))
         if name == "sum":
@@ -528,7 +575,7 @@ class Folder:
         if name in ("map", "filter") and len(args) == 2:
             f = self.fold(args[0])
             vals = list(self.fold(args[1]))
-            if isinstance(f, _Lambda):
+            if isinstance(f, (_Lambda, _LocalFn)):
                 res = [f.call(self, [v]) for v in vals]
                 return res if name == "map" else [v for v, k in zip(vals, res) if k]
             raise Unfoldable(unparse(e))
@@ -546,6 +593,21 @@ class Folder:
                     acc = f.call(self, [acc, v])
                 return acc
             raise Unfoldable(unparse(e))
+        if name in ("itertools.product", "itertools.combinations", "itertools.permutations", "itertools.combinations_with_replacement", "itertools.chain"):
+            import itertools as _it
+
+            kw = {k.arg: self.fold(k.value) for k in e.keywords if k.arg}
+            vals = [list(self.fold(a)) if name != "itertools.combinations" or i == 0 else self.fold(a) for i, a in enumerate(args)]
+            if name in ("itertools.combinations", "itertools.permutations", "itertools.combinations_with_replacement"):
+                vals = [list(self.fold(args[0]))] + [self.fold(a) for a in args[1:]]
+            out_ = list(getattr(_it, name.split(".")[1])(*vals, **kw))
+            if len(out_) > 200000:
+                raise Unfoldable("enumeration too large")
+            return out_
+        if name in ("collections.defaultdict", "defaultdict") and len(args) == 1 and dotted(args[0]) in ("list", "set", "dict", "int"):
+            import collections as _c
+
+            return _c.defaultdict({"list": list, "set": set, "dict": dict, "int": int}[dotted(args[0])])
         if name in ("math.lcm", "math.gcd"):
             vals = [self.fold(a) for a in args]
             return getattr(math, name.split(".")[1])(*vals)
@@ -567,8 +629,10 @@ class Folder:
         fv = None
         if isinstance(e.func, ast.Name) and e.func.id in self.env:
             fv = self.env[e.func.id]
-        if isinstance(fv, _Lambda):
+        if isinstance(fv, (_Lambda, _LocalFn)):
             return fv.call(self, [self.fold(a) for a in args])
+        if isinstance(fv, Abstract) and callable(fv):
+            return fv(*[self.fold(a) for a in args], **{k.arg: self.fold(k.value) for k in e.keywords if k.arg})
         if self.repo is not None and self.mod is not None and isinstance(e.func, (ast.Name, ast.Attribute)):
             r = None
             if isinstance(e.func, ast.Attribute) and isinstance(e.func.value, ast.Name) and e.func.value.id in ("self", "cls") and self.cls is not None:
